@@ -18,7 +18,7 @@ from pathlib import Path
 VERIF = Path(__file__).resolve().parent.parent
 SPEC = VERIF / "spec"
 SHIM = VERIF / "shim"
-EVID = VERIF / "evidence"
+EVID = Path(os.environ.get("NAUNET_EVIDENCE_DIR", str(VERIF / "evidence")))
 REPLAYS = EVID / "replays"
 REPO = Path(os.environ.get("NAUNET_REPO", "/repo"))
 GUARD = "NAUNET_VERIF"
